@@ -1227,6 +1227,11 @@ func c20config(args []string) error {
 	if err != nil {
 		return err
 	}
+	// "<mode>+rand": no rotator goroutine; the rotations happen INSIDE handshakes, at the instant the server draws the 16-byte
+	// IV of a new ticket from Config.Rand (every (total/rots)-th such draw): the one place where a handshake that reads the
+	// key list more than once sees two different lists
+	viaRand := strings.HasSuffix(args[0], "+rand")
+	args[0] = strings.TrimSuffix(args[0], "+rand")
 	mk := func() (sc *gmtls.Config, cc func(cache gmtls.ClientSessionCache, name string) *gmtls.Config) {
 		if args[0] == "gm" {
 			suites := []uint16{gmtls.GMTLS_SM2_WITH_SM4_SM3}
@@ -1307,9 +1312,52 @@ func c20config(args []string) error {
 	var wg sync.WaitGroup
 	var hsDone int64
 	total := int64(workers * iters)
+	if viaRand {
+		// every second rotation is made by a rotator goroutine (spread over the run); it arms the hook, and the next draw of a
+		// ticket IV - the re-issue of a ticket for a client that reconnects with its old one - makes the following rotation
+		var rot int
+		var armed int32
+		var rmu sync.Mutex
+		doRotate := func() bool {
+			rmu.Lock()
+			defer rmu.Unlock()
+			if rot >= rots {
+				return false
+			}
+			rot++
+			op := int(atomic.AddInt64(&ops, 1))
+			inv := evCfg{Stamp: stamp(), Ev: "inv", Op: op, Kind: "rotate", Keys: []int{rot + 1, rot}}
+			sc.SetSessionTicketKeys([][32]byte{cfgKey(rot + 1), cfgKey(rot)})
+			logEv(inv, evCfg{Stamp: stamp(), Ev: "res", Op: op})
+			return true
+		}
+		sc.Rand = readerFunc(func(p []byte) (int, error) {
+			if len(p) == 16 && atomic.CompareAndSwapInt32(&armed, 1, 0) {
+				doRotate()
+			}
+			return rand.Read(p)
+		})
+		phases := (rots + 1) / 2
+		wg.Add(1)
+		go func() {
+			defer wg.Done()
+			for ph := 1; ph <= phases; ph++ {
+				for atomic.LoadInt64(&hsDone) < total*int64(ph)/int64(phases+1) {
+					time.Sleep(time.Millisecond)
+				}
+				if !doRotate() {
+					return
+				}
+				atomic.StoreInt32(&armed, 1)
+			}
+		}()
+	}
 	wg.Add(1)
 	go func() { // the rotator: spread over the run
 		defer wg.Done()
+		if viaRand {
+			return
+		}
 		// Between two rotations the rotator keeps re-installing the list that is already in force.  Those calls do not
 		// change the abstract state (stuttering steps: they are not logged), but they keep SetSessionTicketKeys running
 		// all the time, so that an installation that is not atomic shows its intermediate lists to the handshakes.
@@ -1386,5 +1434,9 @@ func c20config(args []string) error {
 	}
 	return nil
 }
+
+type readerFunc func(p []byte) (int, error)
+
+func (f readerFunc) Read(p []byte) (int, error) { return f(p) }
 
 func init() { cmds["c20-config"] = c20config }
